@@ -2,7 +2,9 @@
 
 A command is described by symbolic small integers: modes a and b (a == b: single-mode command), optionally a "marked"
 bit for group_operations' predicate, optionally dep: an extra mode the command depends on through a measured parameter
-(dep == -1: none).  The tuple arity is kept minimal per condition: CrossHair's cost grows about tenfold per command."""
+(dep == -1: none).  The tuple arity is kept minimal per condition: CrossHair's cost grows about tenfold per command.
+The three-command conditions with dependencies or predicate bits run on 2 modes (on 3 modes they need more than 50
+minutes each; that family is explored by the Engine P harness props/c04.py instead)."""
 from typing import List, Tuple
 import strawberryfields.program_utils as pu
 from strawberryfields.program_utils import Command, RegRef
@@ -60,8 +62,8 @@ def ok2(cmds, L):
     return 1 <= len(cmds) <= L and all(0 <= a < NM and 0 <= b < NM for a, b in cmds)
 
 
-def ok3(cmds, L):
-    return 1 <= len(cmds) <= L and all(0 <= a < NM and 0 <= b < NM for a, b, m in cmds)
+def ok3(cmds, L, nm=NM):
+    return 1 <= len(cmds) <= L and all(0 <= a < nm and 0 <= b < nm for a, b, m in cmds)
 
 
 def okd(cmds, L, nm=NM):
@@ -167,7 +169,7 @@ def check_roundtrip_deps_L2(cmds: List[Tuple[int, int, int]]) -> bool:
 
 def check_roundtrip_deps_L3(cmds: List[Tuple[int, int, int]]) -> bool:
     """
-    pre: okd(cmds, 3)
+    pre: okd(cmds, 3, 2)
     post: _
     """
     return roundtrip([(a, b, False, d) for a, b, d in cmds])
@@ -183,7 +185,7 @@ def check_group_L2(cmds: List[Tuple[int, int, bool]]) -> bool:
 
 def check_group_L3(cmds: List[Tuple[int, int, bool]]) -> bool:
     """
-    pre: ok3(cmds, 3)
+    pre: ok3(cmds, 3, 2)
     post: _
     """
     return group([(a, b, m, -1) for a, b, m in cmds])
@@ -199,7 +201,7 @@ def check_grid_L2(cmds: List[Tuple[int, int, int]]) -> bool:
 
 def check_grid_L3(cmds: List[Tuple[int, int, int]]) -> bool:
     """
-    pre: okd(cmds, 3)
+    pre: okd(cmds, 3, 2)
     post: _
     """
     return grid([(a, b, False, d) for a, b, d in cmds])
